@@ -88,6 +88,30 @@ func stateEffects(fn *ssa.Function, pkg string) []stateEffect {
 							return
 						}
 					}
+					// …or by a helper the reference tree does not have, every return of which is a state constant
+					if cl, isCall := strip(x.Val).(*ssa.Call); isCall {
+						if h := cl.Call.StaticCallee(); h != nil && gNewFuncs[h] && len(h.Blocks) > 0 {
+							var ks []ssa.Value
+							all := len(returnsOf(h)) > 0
+							for _, ret := range returnsOf(h) {
+								if len(ret.Results) != 1 {
+									all = false
+									break
+								}
+								if _, isK := strip(ret.Results[0]).(*ssa.Const); !isK {
+									all = false
+									break
+								}
+								ks = append(ks, ret.Results[0])
+							}
+							if all {
+								for _, k := range ks {
+									out = append(out, stateEffect{in, "init", stateRef(k)})
+								}
+								return
+							}
+						}
+					}
 					out = append(out, stateEffect{in, "init", stateRef(x.Val)})
 				} else {
 					out = append(out, stateEffect{in, "store", stateRef(x.Val)})
